@@ -6,6 +6,7 @@ import (
 	"errors"
 	"fmt"
 	"io"
+	"math"
 	"os"
 	"path/filepath"
 	"sort"
@@ -50,8 +51,8 @@ func c04Alphabet() c04Alpha {
 	add("I0", refcar.MakeCidV1(0x55, 0x00, nil), nil)
 	dl := bytes.Repeat([]byte{0xAB}, 64)
 	add("L", refcar.MakeCidV1(0x55, 0x13, dl), []byte("L has a 68-byte CID")) // over-long when MaxIndexCidSize is small
-	il := bytes.Repeat([]byte("i"), 60)
-	add("IL", refcar.MakeCidV1(0x55, 0x00, il), il) // over-long identity CID when MaxIndexCidSize is small
+	il := bytes.Repeat([]byte("i"), 200)                                      // ≥ 128 bytes: the digest length needs a two-byte varint
+	add("IL", refcar.MakeCidV1(0x55, 0x00, il), il)                           // over-long identity CID when MaxIndexCidSize is small
 	return a
 }
 
@@ -66,12 +67,14 @@ var c04Configs = []lab.Cfg{
 	{MaxCid: 40},
 	{DataPad: 7, IndexPad: 5, Sorted: true},
 	{MaxCid: 40, StoreID: true, WholeCID: true},
+	{MaxCid: math.MaxUint64}, // "no limit"
 	// thorough extras
 	{V1: true, WholeCID: true},
 	{AllowDup: true, WholeCID: true, StoreID: true, DataPad: 1},
 	{Sorted: true, StoreID: true},
 	{V1: true, MaxCid: 40},
 	{V1: true, DataPad: 1024},
+	{MaxCid: 1 << 63, StoreID: true},
 }
 
 // ops: "P:<name>" put, "M:<n1>,<n2>,.." putmany, "F" finalize, "R" finalize-readonly, "X" close, "D" discard
@@ -233,12 +236,23 @@ func c04Open(api string, cfg lab.Cfg, roots [][]byte, dir string) (c04Store, err
 	}
 	mf := iofault.New(nil)
 	mf.NoLog = true
-	sc, err := storage.NewReadableWritable(mf, lab.ToCids(roots, false), cfg.Opts()...)
+	var target storage.ReaderAtWriterAt = mf
+	if api == "storage-notrunc" {
+		target = onlyAt{mf} // a ReaderAtWriterAt that cannot be truncated or seeked (not an *os.File)
+	}
+	sc, err := storage.NewReadableWritable(target, lab.ToCids(roots, false), cfg.Opts()...)
 	if err != nil {
 		return nil, err
 	}
 	return &c04ST{sc: sc, mf: mf}, nil
 }
+
+// onlyAt hides everything but ReadAt/WriteAt/Write of the memfile (no Truncate, no Seek).
+type onlyAt struct{ mf *iofault.MemFile }
+
+func (o onlyAt) ReadAt(p []byte, off int64) (int, error)  { return o.mf.ReadAt(p, off) }
+func (o onlyAt) WriteAt(p []byte, off int64) (int, error) { return o.mf.WriteAt(p, off) }
+func (o onlyAt) Write(p []byte) (int, error)              { return o.mf.Write(p) }
 
 func notFound(err error) bool {
 	return err != nil && (format.IsNotFound(err) || errors.Is(err, index.ErrNotFound) || storage.IsNotFound(err))
@@ -350,7 +364,7 @@ func c04RunHistory(t *mon.T, api string, cfg lab.Cfg, a c04Alpha, hist []string,
 			}
 		}
 		keys, kerr := st.Keys()
-		if api != "storage" {
+		if !strings.HasPrefix(api, "storage") {
 			t.Events(1)
 			if state == stClosed {
 				if kerr == nil {
@@ -506,7 +520,7 @@ func c04RunHistory(t *mon.T, api string, cfg lab.Cfg, a c04Alpha, hist []string,
 				viol("closed/Put/no-error", "Put(%s) succeeded after the store was closed", n)
 			}
 		}
-		if api != "storage" {
+		if !strings.HasPrefix(api, "storage") {
 			if err := st.PutMany([]refcar.Block{a.blocks["A"], a.blocks["B"]}); err == nil {
 				viol("closed/PutMany/no-error", "PutMany succeeded after the store was closed")
 			}
@@ -583,11 +597,11 @@ func runC04(t *mon.T, raw json.RawMessage) {
 
 func genC04(g *mon.G) {
 	a := c04Alphabet()
-	ncfg := g.Pick(10, len(c04Configs))
+	ncfg := g.Pick(11, len(c04Configs))
 	depth := g.Pick(2, 3) // histories of length ≤ 1+depth
-	for _, api := range []string{"blockstore", "storage", "blockstore-file"} {
+	for _, api := range []string{"blockstore", "storage", "blockstore-file", "storage-notrunc"} {
 		for ci := 0; ci < ncfg; ci++ {
-			if api == "blockstore-file" && ci%3 != 0 {
+			if (api == "blockstore-file" && ci%3 != 0) || (api == "storage-notrunc" && ci%3 != 1) {
 				continue // the caller-owned-file variant on a third of the configurations
 			}
 			for _, op := range c04Ops(api, a) {
@@ -606,7 +620,7 @@ func init() {
 	Register(&mon.Check{
 		ID:          "C04",
 		Level:       "exploration",
-		Rule:        "EXHAUSTIVE: all histories of length ≤ 3 (quick) / ≤ 4 (thorough) over the op alphabet {Put of 9 designed blocks (A; A' same multihash other codec; B; C equal digest other hash code; IA identity twin of A's digest; I; I0 empty identity; L and IL over-long), 2 PutMany batches (one rejected midway), Finalize, FinalizeReadOnly, Close, Discard} x 10 (quick) / 14 (thorough) option configurations x {blockstore.ReadWrite, storage.StorageCar on a memfile, and (a third of the configurations) blockstore.OpenReadWriteFile on a caller-owned file that stays open after Discard/Finalize}; plus random histories of length 10-60. After EVERY step: Has/Get/GetSize of all 9 keys, AllKeysChan, Roots and the payload bytes on file are compared with the executable model; after a terminal operation every operation is run once more (errors required, file frozen). A case = all histories sharing a first op; counters.histories counts individual histories",
+		Rule:        "EXHAUSTIVE: all histories of length ≤ 3 (quick) / ≤ 4 (thorough) over the op alphabet {Put of 9 designed blocks (A; A' same multihash other codec; B; C equal digest other hash code; IA identity twin of A's digest; I; I0 empty identity; L and IL over-long), 2 PutMany batches (one rejected midway), Finalize, FinalizeReadOnly, Close, Discard} x 10 (quick) / 14 (thorough) option configurations x {blockstore.ReadWrite, storage.StorageCar on a memfile, storage.StorageCar on a bare ReaderAt+WriterAt that cannot be truncated (a third of the configurations), and (a third of the configurations) blockstore.OpenReadWriteFile on a caller-owned file that stays open after Discard/Finalize}; plus random histories of length 10-60. After EVERY step: Has/Get/GetSize of all 9 keys, AllKeysChan, Roots and the payload bytes on file are compared with the executable model; after a terminal operation every operation is run once more (errors required, file frozen). A case = all histories sharing a first op; counters.histories counts individual histories",
 		Assumptions: []string{"executable model lab.Model implements the documented admission rules; lookups are compared against the admissible set, listings as multisets", "identity lookups after close and Roots() after close are not judged; GetSize of an absent identity CID under StoreIdentityCIDs may answer the implied size or not-found"},
 		Gen:         genC04,
 		Run:         runC04,
